@@ -49,6 +49,16 @@ Theorem all_instances_hold_partial : forall id sc f,
 Proof. exact instances_hold. Qed.
 Print Assumptions all_instances_hold_partial.
 
+(* Every cleanup block / failure handler of every instance's operation is entered by the
+   no-fault run or by some single-fault run (so the complete k enumeration compares each
+   transcribed block with the code at least once); the listed dead labels guard callees
+   that make no acquisition for the arguments used. *)
+Theorem every_cleanup_label_reached : forall id sc l,
+  inst_by_id id = Some sc -> In l (op_labels sc) ->
+  In l dead_labels \/ exists f, In f single_runs /\ In l (o_labels (run_scn sc f)).
+Proof. exact labels_all_reached. Qed.
+Print Assumptions every_cleanup_label_reached.
+
 (* P_refuted of the known finding: a failed queue-node allocation inside the void
    muggle_socket_evloop_add_ctx cannot be reported. *)
 Theorem void_socket_evloop_add_ctx_refuted :
